@@ -8,7 +8,7 @@ set -u
 cd "$(dirname "$0")/.."
 N="${1:-4}"
 VERIF="$PWD"
-declare -A EXTRA=( [C02-C]=C04 [C02-G]=C04 [C03-F]=C05 [C06-F]=C16 [C02-F]=C16 [C09-I]=C08 )
+declare -A EXTRA=( [C02-C]=C04 [C02-G]=C04 [C03-F]=C05 [C06-F]=C16 [C02-F]=C16 [C09-I]=C08 [C01-H]=C10 )
 seeds=( $(ls -d seeded/C*/ | xargs -n1 basename) )
 lane() {
   k=$1; L=/tmp/diag-$k
